@@ -369,9 +369,13 @@ class DefaultOperatorResolver(OperatorResolver):
                     or Token(),
                     "The right-hand argument of `**` must be a positive integer.",
                 )
+            # The n-fold product of an ordered set of m terms (with products
+            # of equal factors collapsing) is the same ordered set for every
+            # n >= m, so no more than m copies ever need to be expanded.
+            copies = min(exponent, max(len(arg), 1))
             return OrderedSet(
                 functools.reduce(lambda x, y: x * y, term)
-                for term in itertools.product(*[arg] * int(power_term.factors[0].expr))
+                for term in itertools.product(*[arg] * copies)
             )
 
         def multistage_formula(
